@@ -600,12 +600,14 @@ class Phase(Angle):
 
     def argsort(self, axis=-1):
         """Returns the indices that would sort the phase array."""
-        phase_approx = self.cycle
-        phase_remainder = (self - phase_approx).cycle
+        # A normalised phase (integer count, fraction in [-0.5, 0.5]) is ordered
+        # exactly by (count, fraction); a remainder relative to the single-double
+        # cycle is only good to 2**-53 and swaps closer phases.
+        v = self.view(np.ndarray)
         if axis is None:
-            return np.lexsort((phase_remainder.ravel(), phase_approx.ravel()))
+            return np.lexsort((v["frac"].ravel(), v["int"].ravel()))
         else:
-            return np.lexsort(keys=(phase_remainder, phase_approx), axis=axis)
+            return np.lexsort(keys=(v["frac"], v["int"]), axis=axis)
 
     # Below are basically straight copies from Time
     def min(self, axis=None, out=None, keepdims=False):
